@@ -14,7 +14,7 @@ Inductive fkind :=
 | FWalkGenuine | FWalkMissed | FWalkPriority | FGreedy
 | FSpecInsert | FSpecDelete | FSpecConstraint
 | FNoop | FRoundtrip | FInterfere | FNotRouted | FSame | FDumpOf
-| FBuiltin | FOci | FOciModel | FOciName | FUnknownRouter | FArcs | FSplitChar | FIndexSearch.
+| FBuiltin | FOci | FOciModel | FOciName | FUnknownRouter | FArcs | FSplitChar | FIndexSearch | FOciE2E.
 
 Definition finding := (fkind * list bytes)%type.
 
